@@ -2,6 +2,8 @@ import ITree.Lemmas.ArenaOps
 import ITree.Lemmas.ArenaDeleteTop
 import ITree.Lemmas.ArenaExpire
 import ITree.Lemmas.ArenaClear
+import ITree.Lemmas.ArenaExport
+import ITree.Lemmas.KHistory
 import ITree.Props.Common
 import ITree.Lemmas.MapWF
 /-!
@@ -75,22 +77,99 @@ theorem arena_deleteByIndex_refines {a : Arena V} {st st' : St V} (slot : Nat) (
 /-- the delete repair alone, in any context: `fix_red_black_properties_after_delete` realises `fixUpD` -/
 theorem arena_fixDelete_refines (fuel : Nat) : FixDeleteSpec (V := V) fuel := fixDelete_rep fuel
 
+/-- `RepStG a st` = `RepSt a st` **and** the invariant about the garbage in freed slots: every slot that is not in
+the tree (and is not the scratch slot 0) is rejected by the walk of `is_part_of_the_tree` over its *stale* parent
+links. A new arena satisfies it. -/
+theorem arena_new_repG (c : Nat) (d : Ent V) (hc : max c 8 ≤ EMPTY) : RepStG (Arena.new c d) (St.new c) :=
+  new_repG c d hc
+
 /-- **expiring tree, queries**: `first_less`, `first_less_or_equal(_by)` and `get_value` of the pointer code —
 `expire_root` / `expire_left` / `expire_right` with their `delete_index` calls re-reading the link after
-every lazy removal — return the answer of the zipper model and leave the state it leaves. -/
-theorem arena_kQuery_refines {a : Arena V} {st st' : St V} (h : RepSt a st) (hw : WF st)
+every lazy removal — return the answer of the zipper model and leave the state it leaves (garbage invariant
+included: every lazy removal unlinks the slot from its parent before freeing it). -/
+theorem arena_kQuery_refines {a : Arena V} {st st' : St V} (h : RepStG a st) (hw : WF st)
     (hsize : a.nodes.size ≤ EMPTY) (mode : Mode) (time : Int) (f : Int → Ordering) {r : Option V}
     {tr : List (Ev V)} (hm : st.kQuery mode time f = some (st', r, tr)) :
-    ∃ a', a.kQuery mode time f = some (a', r) ∧ RepSt a' st' ∧ WF st' :=
-  let ⟨a', h1, h2, h3, _⟩ := kQuery_rep h hw hsize mode time f hm
-  ⟨a', h1, h2, h3⟩
+    ∃ a', a.kQuery mode time f = some (a', r) ∧ RepStG a' st' ∧ WF st' ∧ a'.nodes.size = a.nodes.size :=
+  kQuery_rep h hw hsize mode time f hm
 
 /-- **expiring tree, insert** (lazy removals on the descent, allocation with growth, linking, repair) -/
-theorem arena_kInsert_refines {a : Arena V} {st st' : St V} (h : RepSt a st) (hw : WF st)
+theorem arena_kInsert_refines {a : Arena V} {st st' : St V} (h : RepStG a st) (hw : WF st)
     (hB : a.nodes.size + max a.cap (2 * a.nodes.size + 4) ≤ EMPTY) (e : Ent V) (time : Int) {tr : List (Ev V)}
     (hm : st.kInsert e time = some (st', tr)) :
-    ∃ a', a.kInsert e time = some a' ∧ RepSt a' st' :=
+    ∃ a', a.kInsert e time = some a' ∧ RepStG a' st' :=
   kInsert_rep h hw hB e time hm
+
+/-- **expiring tree, export** (`create_ordered_list`, the body of `into_ordered_vec`): the sweep over *all* arena
+slots — `is_part_of_the_tree` walking the stale parent links of freed slots, `delete_index` repeated while the
+slot's new occupant is expired — then the in-order traversal; it never indexes outside the arena, exports the
+vector and requests the capacity the zipper model says, and leaves the state it leaves. -/
+theorem arena_kExport_refines {a : Arena V} {st st' : St V} (h : RepStG a st) (hw : WF st)
+    (hsize : a.nodes.size ≤ EMPTY) (time : Int) {vals : List V} {capReq : Nat} {tr : List (Ev V)}
+    (hm : st.kExport time = some (st', vals, capReq, tr)) :
+    ∃ a', a.kExport time = some (a', vals, capReq) ∧ RepStG a' st' ∧ WF st' :=
+  kExport_rep h hw hsize time hm
+
+/-- **expiring tree, clear** -/
+theorem arena_kClear_refines {a : Arena V} {st : St V} (h : RepStG a st) (hw : WF st) (hsize : a.nodes.size ≤ EMPTY) :
+    ∃ a', a.clear = some a' ∧ RepStG a' st.clear ∧ a'.nodes = a.nodes :=
+  let ⟨a', h1, h2, h3, _⟩ := clear_repG h hw hsize
+  ⟨a', h1, h2, h3⟩
+
+/-- one public operation of the expiring tree, run by the pointer code: new arena, answer, exported vector -/
+def Arena.kStep (a : Arena V) : KOp V → Option (Arena V × Option V × List V)
+  | .insert e t => (a.kInsert e t).map fun a' => (a', none, [])
+  | .query mode t f => (a.kQuery mode t f).map fun (a', r) => (a', r, [])
+  | .exportAt t => (a.kExport t).map fun (a', vals, _) => (a', none, vals)
+  | .clear => a.clear.map fun a' => (a', none, [])
+
+/-- the arena (with one growth step) still fits `u32` indices -/
+def Arena.Room (a : Arena V) : Prop := a.nodes.size + max a.cap (2 * a.nodes.size + 4) ≤ EMPTY
+
+/-- **every operation of the expiring tree**: whatever the zipper model does on a well-formed state, the
+pointer code does — same answer, same exported vector, and an arena representing the model's next state with
+its garbage recognisable -/
+theorem arena_kStep_refines {a : Arena V} {st st' : St V} (op : KOp V) (h : RepStG a st) (hw : WF st)
+    (hroom : a.Room) {r : Option V} {vals : List V} {tr : List (Ev V)}
+    (hm : st.kstep op = some (st', r, vals, tr)) :
+    ∃ a', Arena.kStep a op = some (a', r, vals) ∧ RepStG a' st' := by
+  have hsize : a.nodes.size ≤ EMPTY := by unfold Arena.Room at hroom; omega
+  cases op with
+  | insert e t =>
+    simp only [St.kstep, Option.map_eq_some_iff, Prod.mk.injEq, Prod.exists] at hm
+    obtain ⟨s1, tr1, hk, rfl, rfl, rfl, rfl⟩ := hm
+    obtain ⟨a', h1, h2⟩ := arena_kInsert_refines h hw hroom e t hk
+    exact ⟨a', by simp [Arena.kStep, h1], h2⟩
+  | query mode t f =>
+    simp only [St.kstep, Option.map_eq_some_iff, Prod.mk.injEq, Prod.exists] at hm
+    obtain ⟨s1, r1, tr1, hk, rfl, rfl, rfl, rfl⟩ := hm
+    obtain ⟨a', h1, h2, _⟩ := arena_kQuery_refines h hw hsize mode t f hk
+    exact ⟨a', by simp [Arena.kStep, h1], h2⟩
+  | exportAt t =>
+    simp only [St.kstep, Option.map_eq_some_iff, Prod.mk.injEq, Prod.exists] at hm
+    obtain ⟨s1, v1, c1, tr1, hk, rfl, rfl, rfl, rfl⟩ := hm
+    obtain ⟨a', h1, h2, _⟩ := arena_kExport_refines h hw hsize t hk
+    exact ⟨a', by simp [Arena.kStep, h1], h2⟩
+  | clear =>
+    simp only [St.kstep, Option.some.injEq, Prod.mk.injEq] at hm
+    obtain ⟨rfl, rfl, rfl, rfl⟩ := hm
+    obtain ⟨a', h1, h2, _⟩ := arena_kClear_refines h hw hsize
+    exact ⟨a', by simp [Arena.kStep, h1], h2⟩
+
+/-- **histories of the expiring tree at the pointer level.** In a state reached by an in-contract history
+(`KReach`, reference content `S`), every further in-contract operation run by the *pointer code* completes
+inside the arena and returns exactly what the reference machine `kspecStep` returns (answer and exported vector);
+the arena it leaves again represents a reachable state. Together with `arena_new_repG` this is an invariant of
+every in-contract history of the statement-level transcription of `KeyExpTree`, lazy removals, the
+stale-link walk of the export and clock restarts after `clear` included. -/
+theorem arena_kHistory_step {c : Nat} {a : Arena V} {st : St V} {S : List (Ent V)} {last : Option Int}
+    (hreach : KReach c st S last) (h : RepStG a st) (op : KOp V) (hc : KContract S last op) (hroom : a.Room) :
+    ∃ a' st', Arena.kStep a op = some (a', (kspecStep S op).2.1, (kspecStep S op).2.2) ∧
+      RepStG a' st' ∧ KReach c st' (kspecStep S op).1 (op.nextLast last) := by
+  obtain ⟨hw, hr⟩ := hreach.inv
+  obtain ⟨st', r, vals, tr, h1, _, _, rfl, rfl⟩ := St.kstep_refines st S last op hw hr hc
+  obtain ⟨a', h2, h3⟩ := arena_kStep_refines op h hw hroom h1
+  exact ⟨a', st', h2, h3, KReach.step op hreach hc h1⟩
 
 /-- **clear** -/
 theorem arena_clear_refines {a : Arena V} {st : St V} (h : RepSt a st) (hw : WF st) (hsize : a.nodes.size ≤ EMPTY) :
@@ -139,5 +218,29 @@ example : ∃ a', ((Arena.new 8 (⟨0, 0, 0⟩ : Ent Nat)).insert ⟨5, 0, 50⟩
   have hw : WF (⟨.leaf, Pool.new 8⟩ : St Nat) := WF.new 8
   obtain ⟨a', h1, h2, _⟩ := arena_insert_refines ⟨5, 0, 50⟩ h0 hw (by decide)
   exact ⟨a', h1, h2⟩
+
+/-- `Room` in terms of the represented state -/
+theorem RepSt.room {a : Arena V} {st : St V} (h : RepSt a st)
+    (hb : st.pool.bufLen + max st.pool.cap (2 * st.pool.bufLen + 4) ≤ EMPTY) : a.Room := by
+  have h1 : st.pool.bufLen = a.nodes.size := by rw [h.pool]; rfl
+  have h2 : st.pool.cap = a.cap := by rw [h.pool]; rfl
+  unfold Arena.Room; omega
+
+/-- non-vacuity of `arena_kHistory_step`: after `new(0)` and one insertion (executed by the pointer code) the
+hypotheses hold with a non-empty reference content, so the export at a later time is covered -/
+example : ∃ (a : Arena Nat) (st : St Nat) (last : Option Int),
+    KReach 0 st [⟨2, 10, 20⟩] last ∧ RepStG a st ∧ a.Room ∧ KContract [(⟨2, 10, 20⟩ : Ent Nat)] last (.exportAt 5) := by
+  have h0 := arena_new_repG 0 (⟨0, 0, 0⟩ : Ent Nat) (by decide)
+  have hroom0 : (Arena.new 0 (⟨0, 0, 0⟩ : Ent Nat)).Room := h0.rep.room (by decide)
+  have hc : KContract ([] : List (Ent Nat)) none (.insert ⟨2, 10, 20⟩ 0) :=
+    ⟨by simp, by decide, by simp [live]⟩
+  obtain ⟨st1, r, vals, tr, hk, hw1, _, _, _⟩ := St.kstep_refines (St.new 0 : St Nat) [] none _ (WF.new 0) ⟨rfl, rfl⟩ hc
+  obtain ⟨a1, _, hrep1⟩ := arena_kStep_refines _ h0 (WF.new 0) hroom0 hk
+  have hpool : ((St.new 0 : St Nat).kstep (.insert ⟨2, 10, 20⟩ 0)).map (fun x => (x.1.pool.bufLen, x.1.pool.cap)) =
+      some (8, 8) := by decide
+  rw [hk] at hpool
+  simp only [Option.map_some, Option.some.injEq, Prod.mk.injEq] at hpool
+  refine ⟨a1, st1, _, KReach.step _ KReach.new hc hk, hrep1, hrep1.rep.room (by rw [hpool.1, hpool.2]; decide), ?_⟩
+  simp [KContract, KOp.nextLast, KOp.time]
 
 end ITree
